@@ -2,6 +2,15 @@ import KitModel.TTLCache
 /-! Helper lemmas for C15 (ttlcache): the association map, time arithmetic, the history scan. -/
 namespace Kit.TTLCache
 
+/-- `omega` after unfolding the regenerated source constants (the comparison operators unfold by
+themselves: `Cmp.rel` is reducible). -/
+macro "src_omega" : tactic =>
+  `(tactic| first
+    | omega
+    | (simp only [Src.capEnabledBound, Src.ttlUnitNs, Src.setPanicBound, Src.intervalDefaultBound,
+        Src.intervalDefaultNs, Src.capEnabledCmp, Src.capCmp, Src.getHitCmp, Src.cleanupCmp,
+        Src.setPanicCmp, Src.intervalDefaultCmp, Src.Cmp.rel, second, badTTL] at *; omega))
+
 /-! ### the map -/
 
 theorem mget_delKeys {α : Type} (m : AMap α) (ks : List Key) (k : Key) :
@@ -75,16 +84,16 @@ theorem wrap64_id (x : Int) (h1 : -9223372036854775808 ≤ x) (h2 : x < 92233720
   unfold wrap64; omega
 
 theorem effTTL_pos (maxTTL ttl : Int) (h : 0 < ttl) : 0 < effTTL maxTTL ttl := by
-  unfold effTTL; split <;> omega
+  unfold effTTL; split <;> src_omega
 
 theorem effTTL_le (maxTTL ttl : Int) : effTTL maxTTL ttl ≤ ttl := by
-  unfold effTTL; split <;> omega
+  unfold effTTL; split <;> src_omega
 
 theorem effTTL_capped (maxTTL ttl : Int) (h : 0 < maxTTL) : effTTL maxTTL ttl = min ttl maxTTL := by
-  unfold effTTL; split <;> omega
+  unfold effTTL; split <;> src_omega
 
 theorem effTTL_uncapped (maxTTL ttl : Int) (h : maxTTL ≤ 0) : effTTL maxTTL ttl = ttl := by
-  unfold effTTL; split <;> omega
+  unfold effTTL; split <;> src_omega
 
 /-- Under the explicit overflow bound, Go's wrapped product is the mathematical product. -/
 theorem durNs_exact (maxTTL ttl : Int) (hpos : 0 < ttl) (hno : NoOverflow maxTTL ttl) :
@@ -92,7 +101,7 @@ theorem durNs_exact (maxTTL ttl : Int) (hpos : 0 < ttl) (hno : NoOverflow maxTTL
   unfold durNs
   apply wrap64_id
   · have := effTTL_pos maxTTL ttl hpos
-    unfold second; omega
+    src_omega
   · exact hno
 
 /-! ### the history scan -/
